@@ -61,7 +61,7 @@ HCommentN(af)       == [k |-> "hcomment", after |-> af]
 GCommentN           == [k |-> "gcomment"]                                           \* // line comment
 MCommentN(af)       == [k |-> "mcomment", after |-> af]                             \* /* block comment */, may sit inside a line
 GoCodeMLN           == [k |-> "gocodeml"]                                           \* {{ ... }} spanning several lines (raw string inside)
-RawN(nm, af)        == [k |-> "raw", name |-> nm, after |-> af]                    \* <style>/<script> constant content
+RawN(nm, af)        == [k |-> "raw", name |-> nm, after |-> af]                    \* <style>/<script> constant content; "scriptgo": <script> interpolating E1 twice with {{ }}
 DoctypeN            == [k |-> "doctype"]
 
 Trailer(nd) == nd.k \in {"text", "expr", "void", "el"}
@@ -112,7 +112,7 @@ Leaves ==
     {SlotN(af) : af \in Ws} \cup
     {HCommentN(af) : af \in Ws} \cup
     {MCommentN(af) : af \in Ws} \cup
-    {RawN(nm, af) : nm \in {"style", "script"}, af \in Ws} \cup
+    {RawN(nm, af) : nm \in {"style", "script", "scriptgo"}, af \in Ws} \cup
     {GoCodeN, GoCodeMLN, GCommentN, DoctypeN}
 
 OpenFrame(fr) == /\ Budget
@@ -322,7 +322,8 @@ DenNode(nd, prev, env) ==
       [] nd.k = "gcomment" -> [toks |-> <<>>, evs |-> <<>>, prev |-> POpaque]
       [] nd.k = "mcomment" -> [toks |-> <<>>, evs |-> <<>>, prev |-> POpaque]
       [] nd.k = "hcomment" -> [toks |-> << Tok("comment", "c", Gap(prev, nd)) >>, evs |-> <<>>, prev |-> PNode(nd)]
-      [] nd.k = "raw" -> [toks |-> << Tok("raw", nd.name, Gap(prev, nd)) >>, evs |-> <<>>, prev |-> PNode(nd)]
+      [] nd.k = "raw" -> [toks |-> << Tok("raw", nd.name, Gap(prev, nd)) >>,
+                          evs |-> IF nd.name = "scriptgo" THEN << "E1", "E1" >> ELSE <<>>, prev |-> PNode(nd)]
       [] nd.k = "doctype" -> [toks |-> << Tok("doctype", "html", "may") >>, evs |-> <<>>, prev |-> POpaque]
 
 Denote(nodes, env) == LET r == DenList(nodes, POpaque, env) IN [toks |-> r.toks, evs |-> r.evs]
